@@ -1,6 +1,8 @@
-(* C16 — concrete inputs on which the model (and, as the harness re-observes on every run, the
-   real code) does not do what the source rules say.  Each is outside the hypotheses of the
-   positive theorems in exactly one respect. *)
+(* C16 — concrete inputs.  First the three situations that were repaired in /repo (Rank with more
+   than one word, a rule without condition set, two conditions on one axis): the model of the
+   repaired code now does what the source says.  Then the inputs on which the model (and, as the
+   harness re-observes on every run, the real code) does not do what the source rules say; each is
+   outside the hypotheses of the positive theorems in exactly one respect. *)
 From Coq Require Import List NArith ZArith Bool Lia.
 From FV.C16 Require Import Model ProofsBox ProofsOverlay ProofsSubs ProofsPipeline ProofsStage2 ProofsCheck ProofsFont.
 Import ListNotations.
@@ -20,32 +22,40 @@ Definition rules65 : list rule :=
   map (fun k => ([iv (10 * Z.of_nat k) (10 * Z.of_nat k + 6)], swap (N.of_nat (2 * k)))) (seq 0 64)
   ++ [([iv 10 13; iv 13 16], swap 128)].
 
-Lemma rules65_panics :
-  rules_wfb 1000 rules65 = true /\ length rules65 = 65%nat /\ overlay_feature_variations 1000 rules65 = Panic.
+Lemma rules65_fine :
+  rules_wfb 1000 rules65 = true /\ length rules65 = 65%nat /\
+  applied (overlay_feature_variations 1000 rules65) (at1 12) = [swap 2; swap 128] /\
+  active_maps rules65 (at1 12) = [swap 2; swap 128].
 Proof. vm_compute. repeat split. Qed.
 
-(* 65 rules without a panic: rule 0 covers [0,100], rule 64 an interval inside it; the box carrying
-   both rules has a two-word rank, counts more zero bits and is sorted behind the box of rule 0 alone *)
+(* 65 rules: rule 0 covers [0,100], rule 64 an interval inside it; the box carrying both rules has a
+   two-word rank and must still come before the box of rule 0 alone *)
 Definition rules65b : list rule :=
   ([iv 0 100], swap 0) ::
   map (fun k => ([iv (200 + 10 * Z.of_nat k) (206 + 10 * Z.of_nat k)], swap (N.of_nat (2 * k)))) (seq 1 63)
   ++ [([iv 40 60], swap 128)].
 
-Lemma rules65b_wrong :
+Lemma rules65b_fine :
   rules_wfb 1000 rules65b = true /\ length rules65b = 65%nat /\
   compatibleb (active_maps rules65b (at1 50)) = true /\ exclusiveb 1000 rules65b (at1 50) = true /\
-  applied (overlay_feature_variations 1000 rules65b) (at1 50) = [swap 0] /\
+  applied (overlay_feature_variations 1000 rules65b) (at1 50) = [swap 0; swap 128] /\
   active_maps rules65b (at1 50) = [swap 0; swap 128].
 Proof. vm_compute. repeat split. Qed.
 
 (* ---- a rule without condition set ------------------------------------------------------ *)
 Definition rules_empty : list rule := [([iv 0 8], swap 0); ([], swap 2); ([iv (-8) 4], swap 4)].
 
-Lemma rules_empty_wrong :
-  compatibleb (active_maps rules_empty (at1 6)) = true /\ exclusiveb 16 rules_empty (at1 6) = true /\
-  applied (overlay_feature_variations 16 rules_empty) (at1 6) = [] /\
-  active_maps rules_empty (at1 6) = [swap 0].
+Lemma rules_empty_fine :
+  rules_wfb 16 rules_empty = true /\ exclusiveb 16 rules_empty (at1 6) = true /\
+  applied (overlay_feature_variations 16 rules_empty) (at1 6) = [swap 0] /\
+  active_maps rules_empty (at1 6) = [swap 0] /\
+  applied (overlay_feature_variations 16 rules_empty) (at1 2) = [swap 0; swap 4].
 Proof. vm_compute. repeat split. Qed.
+
+(* ---- two conditions on one axis: wght >= 4 and wght <= 12 ---------------------------------- *)
+Lemma two_conditions_fine :
+  box_of_conditions 16 [(1%N, (None, Some 12)); (1%N, (Some 4, None))] = iv 4 12.
+Proof. reflexivity. Qed.
 
 (* ---- a location on a lower and an upper edge ------------------------------------------- *)
 Definition rules_touch : list rule := [([iv (-16) 0], swap 0); ([iv 0 16], swap 2)].
